@@ -28,7 +28,8 @@ EXPLANATION = (
     "pressure of the interpolated height; (R9.4) several const-flow elements on a junction accumulate (+=) their "
     "scaled, signed, in-service mass flows and a source is a negative sink; (R9.5) the thermal direction switch; "
     "(R9.6) every branch component writes its ACTIVE column from its in_service/opened column and const-flow loads "
-    "carry the in_service factor; (R9.7) end symmetry of the pit construction: wherever a create_pit_branch_entries "
+    "carry the in_service factor; (R9.8, shared with C04 R4.5) flow-return-connecting branches (heat consumers, active flow controllers) are "
+    "re-admitted after the connectivity search only if they are in service. (R9.7) end symmetry of the pit construction: wherever a create_pit_branch_entries "
     "writes TOUTINIT from node temperatures it reads TINIT of exactly the node it stores in TO_NODE for the same rows "
     "(the from side is read as TINIT of FROM_NODE in the kernels), so swapping from/to mirrors the pair of end "
     "temperatures the fluid properties are evaluated at; prescribed outlet temperatures (heat consumer return, pump flow "
@@ -300,4 +301,12 @@ def r9_7(run):
     run.floor(5)
 
 
-RULES = [("R9.1", r9_1), ("R9.2", r9_2), ("R9.3", r9_3), ("R9.4", r9_4), ("R9.5", r9_5), ("R9.6", r9_6), ("R9.7", r9_7)]
+def r9_8(run):
+    """an out-of-service element equals its absence also for the branches that are taken out of the connectivity search and
+    re-admitted afterwards (heat consumers, active flow controllers): re-admission requires the branch to be in service
+    (shared with C04 R4.5)"""
+    from .c04 import r4_5
+    r4_5(run)
+
+
+RULES = [("R9.1", r9_1), ("R9.2", r9_2), ("R9.3", r9_3), ("R9.4", r9_4), ("R9.5", r9_5), ("R9.6", r9_6), ("R9.7", r9_7), ("R9.8", r9_8)]
